@@ -120,3 +120,10 @@ pub fn mark(attr: TokenStream, item: TokenStream) -> TokenStream {
     }
     strip_vp(item)
 }
+
+/// The same witness under the name of a macro entrait knows by its last path segment (`automock`): an attribute that entrait
+/// classifies has to stay on the user's item just like one it does not know.
+#[proc_macro_attribute]
+pub fn automock(attr: TokenStream, item: TokenStream) -> TokenStream {
+    mark(attr, item)
+}
